@@ -2,6 +2,7 @@
   SimVerif.Drv.AllHooks — the application-level components plugged into the world driver.
 -/
 import SimVerif.Drv.Kernel
+import SimVerif.Drv.SocksSrv
 
 namespace SimVerif.Drv
 
@@ -10,6 +11,6 @@ def Hooks.orElse (a b : Hooks) : Hooks :=
   { op := fun p ctx op s => (a.op p ctx op s).orElse (fun _ => b.op p ctx op s)
     internal := fun p h ec x d src s => (a.internal p h ec x d src s).orElse (fun _ => b.internal p h ec x d src s) }
 
-def allHooks : Hooks := {}
+def allHooks : Hooks := socksHooks.orElse {}
 
 end SimVerif.Drv
